@@ -1,9 +1,14 @@
 (* C07 — sharing operations are zero-copy: same address, no new byte buffer.
    Pinned statements.  Effect theorem over M2: for EVERY state and argument, the operations of the sharing family emit no
    byte-buffer allocation event (EAlloc / ERealloc); they may only create or free control blocks.  The address half (result =
-   source + logical offset) is evaluated directly on the implementation after every step (kind c07-address). *)
+   source + logical offset) is evaluated directly on the implementation after every step (kind c07-address) and PROVED over M2
+   (ZeroCopy.v, C07_zero_copy_addresses): in every reachable state a sharing operation that returns changes no byte of any
+   storage, and every handle it creates or updates is either empty or starts at the address of the handle it was applied to plus
+   an offset d, with [d, d+len) inside that handle's window (its length for a Bytes, its capacity for a BytesMut) - in the
+   model an address is (storage, offset), so "same storage" is "same allocation, nothing copied". *)
+From stdpp Require Import gmap.
 From Coq Require Import NArith.
-From BV Require Import Base Heap HeapLaws.
+From BV Require Import Base Heap HeapLaws HeapWFOps HeapWFMain HeapFrame RefineM1 ZeroCopy.
 
 Theorem C07_sharing_ops_never_allocate : forall orc o, sharing_op o = true -> quiet (hstep orc o).
 Proof. exact sharing_ops_never_allocate. Qed.
@@ -13,6 +18,15 @@ Proof. intros A m H s e a s' e' Hm. specialize (H s e). rewrite Hm in H. exact H
 Example C07_nonvacuous : sharing_op (OBSplitOff 1 3) = true /\ sharing_op (OMFreeze 2) = true /\ sharing_op (OMReserve 1 5) = false.
 Proof. repeat split. Qed.
 
+Theorem C07_zero_copy_addresses : forall orcs n s o r s' e', reach orcs n s -> op_ok s o -> zc_op o = true -> run_op (orcs n) o s = OK r s' e' ->
+  dsame nK s s' /\
+  forall h' z, hs s' !! h' = Some z -> hs s !! h' = Some z \/ (forall hx, ~ tch o hx) \/
+    exists hx x, tch o hx /\ hs s !! hx = Some x /\ (h_len z = 0 \/ exists d, stor z = stor x /\ h_ofs z = h_ofs x + d /\ d + h_len z <= h_win x)%N.
+Proof. exact zero_copy_reachable. Qed.
+Example C07_zc_nonvacuous : zc_op (OBSplitOff 1 3) = true /\ zc_op (OMFreeze 2) = true /\ zc_op (OMSplitTo 1 5) = true /\ zc_op (OMReserve 1 5) = false.
+Proof. done. Qed.
 Print Assumptions C07_sharing_ops_never_allocate.
 Print Assumptions C07_quiet_means.
 Print Assumptions C07_nonvacuous.
+Print Assumptions C07_zero_copy_addresses.
+Print Assumptions C07_zc_nonvacuous.
